@@ -26,6 +26,8 @@ LETTERS = {
     "U": {"reason": "UnknownIssue"}, "R": {"reason": "ResourceExhausted"},
     "F": {"launch_error": "OSError"}, "J": {"launch_error": "JobLaunchError"}, "X": {"launch_error": "Exception"},
     "Q": {"reason": "Killed"}, "C": {"reason": "Cancelled"},
+    # a backend can also report a failed submission through the exit reason of a task it did create
+    "B": {"reason": "SubmissionFailed"},
 }
 HOOK_ANSWERS = ["Possible", "NotRequired", "NotPossible", "HookFailed", "HookNotAvailable", "True", "False",
                 "raiseIOError", "raiseValueError", "None", "42", "junk"]
@@ -246,14 +248,16 @@ def gen_scenario(rng):
     rl = [l for l, e in LETTERS.items() if e.get("reason") in restartable] or ["R"]
     n = rng.randint(1, 9)
     # bias towards letters that keep the run going so that bounds are actually approached
-    pool = rl * 4 + ["F", "J", "F"] + list(LETTERS)
+    pool = rl * 4 + ["F", "J", "B"] + list(LETTERS)
     if "SubmissionFailed" in restartable:
-        pool += ["F", "J"] * 3
+        pool += ["F", "J", "B"] * 2
     seq = "".join(rng.choice(pool) for _ in range(n))
     if rng.random() < 0.25:
         seq = rng.choice(rl) * rng.randint(3, 9)
     if rng.random() < 0.2:
-        seq = rng.choice("FJ") * rng.randint(4, 9)
+        # runs of failed submissions, reported by an exception at task creation, by the task's exit reason, or mixed
+        k = rng.randint(4, 9)
+        seq = rng.choice(["F" * k, "J" * k, "B" * k, "".join(rng.choice("FJB") for _ in range(k))])
     answers = [rng.choice(HOOK_ANSWERS if rng.random() < 0.5 else ["Possible", "HookNotAvailable", "True"])
                for _ in range(rng.randint(1, 3))]
     return {"jobtype": jobtype, "wa": wa, "hook_file": hook_file, "seq": seq, "hook_answers": answers,
